@@ -381,10 +381,56 @@ func runC08(c *ctx) {
 		c.Class("several-diagnostics-out-of-text-order")
 		c08Eval(c, mkCase(r, toks, "mutated", "layout", stats))
 	})
+	// a string literal that lacks its closing quote ends with its line; it is the last token of that line in both
+	// renderings, and what stands between it and the line break (blanks, a comment without a quote character) is layout
+	unclosed := [][]string{
+		{"S1F1", "W", "H->E", "Name", "<", "A", "\"abc", ">", "."},
+		{"S2F1", "H->E", "<", "L", "<", "U1", "1", ">", "<", "A", "65", "\"x>", ">", "."},
+		{"S1F1", "W", "<", "A", "\"", ">", "."},
+		{"S1F1", "W", "<", "L", "<", "A", "\"two words", ">", "<", "U1", "300", ">", ">", "."},
+		{"S1F1", "W", "<", "A", "\"closed\"", "\"open", ">", ".", "S1F3", "W", "<", "U1", "1", ">", "."},
+		{"S1F1", "W", "<", "U1", "\"7", ">", "."},
+	}
+	tails := []string{"", "", " ", "\t", "  \t ", " // model name", "//x", "\t//x", " //", " // à", " // S1F1 W <A x> .", " //ends in nbsp\u00a0"}
+	c.parallel(len(unclosed)*c.pick(150, 1500), func(i int, r *rng.R) {
+		var toks []smltext.Tok
+		at := -1
+		for j, t := range unclosed[i%len(unclosed)] {
+			toks = append(toks, smltext.H(t))
+			if strings.Count(t, `"`)%2 == 1 {
+				at = j
+			}
+		}
+		lay := func() (string, []string) {
+			l, g, _ := smltext.Layout(r, toks, smltext.LayoutOpts{AddOptional: true, Comments: r.Bool(), FinalNoEOL: true})
+			eol := "\n"
+			if r.Chance(1, 4) {
+				eol = "\r\n"
+			}
+			rest := ""
+			if r.Chance(1, 3) {
+				rest = []string{" ", "\t", "\n", "  "}[r.Intn(4)]
+			}
+			g[at] = tails[r.Intn(len(tails))] + eol + rest
+			return l, g
+		}
+		l1, g1 := lay()
+		l2, g2 := lay()
+		rd1, rd2 := smltext.Render(toks, l1, g1, nil), smltext.Render(toks, l2, g2, nil)
+		cs := c08Case{Move: "layout", Kind: "mutated"}
+		for _, t := range toks {
+			cs.Toks = append(cs.Toks, t.S)
+		}
+		cs.Text1, cs.Text2 = rd1.Text, rd2.Text
+		cs.Pos1, cs.Pos2 = posList(rd1.Tok), posList(rd2.Tok)
+		cs.End1, cs.End2 = [2]int{rd1.End.Line, rd1.End.Col}, [2]int{rd2.End.Line, rd2.End.Col}
+		c.Class("unclosed-string-last-on-its-line")
+		c08Eval(c, cs)
+	})
 	for k, v := range agg {
 		c.ClassN("layout/"+k, int64(v))
 	}
-	c.Required = []string{"move/layout/valid", "move/layout/mutated", "move/layout/soup", "move/layout/odd-literal", "move/case/odd-literal", "move/case/valid", "accepted", "with-errors", "layout/comment", "layout/comment-final-byte/0xa0", "layout/comment-final-byte/0x85", "layout/comment/final-without-eol", "layout/size-declaration-with-inner-line-break", "layout/gap-beyond-65536-columns-or-lines", "diagnostic-at/token", "diagnostic-at/end", "several-diagnostics-out-of-text-order"}
+	c.Required = []string{"unclosed-string-last-on-its-line", "move/layout/valid", "move/layout/mutated", "move/layout/soup", "move/layout/odd-literal", "move/case/odd-literal", "move/case/valid", "accepted", "with-errors", "layout/comment", "layout/comment-final-byte/0xa0", "layout/comment-final-byte/0x85", "layout/comment/final-without-eol", "layout/size-declaration-with-inner-line-break", "layout/gap-beyond-65536-columns-or-lines", "diagnostic-at/token", "diagnostic-at/end", "several-diagnostics-out-of-text-order"}
 }
 
 func replayC08(c *ctx, raw json.RawMessage) {
